@@ -244,7 +244,8 @@ theorem client_requests_bounded (cfg : Cfg) (fuel : Nat) (h : Handle) (c : Call)
 
 /-- **Promised exceptions / values**: `Study.get_trial` of a trial that does not exist and
     `Study.from_resource_name` of a study that does not exist raise ResourceNotFoundError, `suggest` on a
-    study that is not open returns `[]` — every state, every variant. -/
+    study that is not open returns `[]`, `add_trial` of a trial outside the search space raises ValueError —
+    every state, every variant. -/
 theorem client_promised_exceptions (cfg : Cfg) (fuel : Nat) (h : Handle) (c : Call) (db : DB) :
     promisedOK db h c (clientStep cfg fuel h c db).1 = true := by
   have hsug : ∀ count w alg, openOrNoHandles db h (getSuggestionsAs cfg fuel h count w alg db).obs = true := by
@@ -293,12 +294,17 @@ theorem client_promised_exceptions (cfg : Cfg) (fuel : Nat) (h : Handle) (c : Ca
       simp [this, isResourceNotFound]
   | suggest count w alg => exact hsug count w alg
   | getSuggestions count alg => exact hsug count h.cid alg
+  | addTrial params final inSpace =>
+    cases inSpace with
+    | true => rfl
+    | false => exact addTrial_outOfSpaceOK cfg fuel h params final db
   | _ => rfl
 
-/-- **Documented effect of the single calls**, every state: a measurement given to `complete` is stored as
-    the final measurement and returned; `stop` on an ACTIVE trial leaves it STOPPING; `set_state(s)` stores
-    `s`; `Trial.delete` removes the trial; `update_metadata` for a trial that does not exist raises
-    RuntimeError (all-or-nothing datastore). -/
+/-- **Documented effect of the single calls**, every state: `add_trial` / `request` on an open study store
+    a NEW trial with the given parameters (SUCCEEDED for a completed trial, otherwise REQUESTED = queued) and
+    return its handle; a measurement given to `complete` is stored as the final measurement and returned;
+    `stop` on an ACTIVE trial leaves it STOPPING; `set_state(s)` stores `s`; `Trial.delete` removes the
+    trial; `update_metadata` for a trial that does not exist raises RuntimeError (all-or-nothing datastore). -/
 theorem client_documented_effects (cfg : Cfg) (hc : cfg.metadataAtomic = true) (fuel : Nat) (h : Handle) (c : Call) (db : DB) :
     effectsOK db (clientStep cfg fuel h c db).2 h c (clientStep cfg fuel h c db).1 = true :=
   clientExec_effectsOK cfg hc fuel h c db
